@@ -243,6 +243,13 @@ func (s *Properties) Merge(other *Properties) {
 		s.Map = make(map[string]any, len(other.Map))
 	}
 	for otherKey, otherValue := range other.Map {
+		// A key this instance deleted stays deleted unless the other instance wrote it
+		if _, deleted := s.Deleted[otherKey]; deleted {
+			if _, otherModified := other.Modified[otherKey]; !otherModified {
+				continue
+			}
+		}
+
 		s.Map[otherKey] = otherValue
 	}
 
